@@ -14,7 +14,7 @@ VARIABLES m, name, c, pbf, ttag
 vars == <<m, name, c, pbf, ttag>>
 
 Init == /\ m \in 0..2
-        /\ name \in (IF Only = "" THEN DOMAIN Table(m) ELSE {Only} \cap DOMAIN Table(m))
+        /\ name \in (IF Only = {} THEN DOMAIN Table(m) ELSE Only \cap DOMAIN Table(m))
         /\ c = -1 /\ pbf = FALSE /\ ttag = 0
 Next == /\ c = -1
         /\ c' \in Counts /\ pbf' \in BOOLEAN
